@@ -209,7 +209,10 @@ func (e *columnsInsertExpr) bindTypes(teb *typedExprBuilder) (err error) {
 				if remainingMap != nil {
 					return fmt.Errorf("cannot use more than one map with asterisk")
 				}
-				remainingMap = &source.typeName
+				// Copy the name: source is the loop variable and is
+				// overwritten by the following iterations.
+				mapName := source.typeName
+				remainingMap = &mapName
 				continue
 			}
 			inps, tags, err := teb.AllStructInputs(source.typeName)
